@@ -14,7 +14,7 @@ RULE = ('histories over {backward(any subset of parameters, random gradient arra
         'elements, mixed frozen/trainable; every array element is one scalar parameter of the model. Compared after every '
         'event: values (rel 1e-10), presence and value of .grad, identity / dtype / shape of p.data. Non-trivial: >= 2 steps '
         'and a non-default hyper-parameter.')
-EXHAUSTIVE = {'quick': False, 'thorough': False}
+EXHAUSTIVE = {'quick': False, 'thorough': False}     # thorough contains an exhaustive sub-family (all event words up to length 5), counted in the distribution
 ASSUMPTIONS = ['float64 parameters; NumPy array arithmetic is the pointwise map of IEEE binary64 scalar arithmetic',
                'Python float ** int is libm pow (as Lean Float.pow)']
 TRUSTED_BASE = ['harness/props/c08.py (generator, canonicalisation)']
@@ -93,6 +93,18 @@ def cases(rng, tier):
         out.append(gen(rng, tier, kind, hp, nev=8))
     for _ in range(120 if tier == 'quick' else 3000):
         out.append(gen(rng, tier))
+    if tier == 'thorough':
+        # EXHAUSTIVE part: every word of length <= 6 over {backward on p0, backward on p1, backward on both, zero_grad, step,
+        # freeze p1, unfreeze p1} for two one-element parameters, under one representative setting of each optimizer
+        alphabet = [('bw', {0: [1.5]}), ('bw', {1: [-0.75]}), ('bw', {0: [0.5], 1: [2.0]}), ('zero',), ('step',), ('rg', 1, False), ('rg', 1, True)]
+        reps = [('sgd', {'lr': 0.1, 'momentum': 0.9, 'dampening': 0.25, 'weight_decay': 0.3, 'nesterov': False, 'maximize': False}),
+                ('adam', {'lr': 0.05, 'betas': (0.5, 0.75), 'eps': 1e-8, 'weight_decay': 0.3, 'maximize': False}),
+                ('adamw', {'lr': 0.05, 'betas': (0.9, 0.999), 'eps': 1e-8, 'weight_decay': 0.3, 'maximize': True})]
+        for kind, hp in reps:
+            for n in range(1, 6 if kind == 'sgd' else 5):
+                for word in itertools.product(range(len(alphabet)), repeat=n):
+                    if not any(alphabet[k][0] == 'step' for k in word): continue       # nothing to observe without a step
+                    out.append({'opt': kind, 'hp': hp, 'thetas': [[1.0], [-2.0]], 'rgs': [True, True], 'evs': [alphabet[k] for k in word], 'exhaustive': True})
     # corpus of past defects: frozen parameter under weight decay; momentum buffer aliasing (no zero_grad between steps)
     out.append({'opt': 'sgd', 'hp': {'lr': .1, 'momentum': 0.0, 'dampening': 0.0, 'weight_decay': .1, 'nesterov': False, 'maximize': False},
                 'thetas': [[3.0, 4.0], [1.0]], 'rgs': [False, True], 'evs': [('bw', {1: [2.0]}), ('step',), ('zero',), ('step',)]})
@@ -192,6 +204,7 @@ def distribution(cases):
     d = {}
     for c in cases:
         d[c['opt']] = d.get(c['opt'], 0) + 1
+        if c.get('exhaustive'): d['exhaustive: all event words up to length 5 (sgd) / 4 (adam, adamw) containing a step'] = d.get('exhaustive: all event words up to length 5 (sgd) / 4 (adam, adamw) containing a step', 0) + 1
         for e in c['evs']:
             d['ev:' + e[0]] = d.get('ev:' + e[0], 0) + 1
     return d
